@@ -123,6 +123,14 @@ func (x *interp) block(tx *gorm.DB) error {
 			}
 			if err := h.Create(&TxRow{ID: a.ID, V: a.ID}).Error; err != nil {
 				pending = err
+			} else if a.Via == "reuse" {
+				// one chained handle used for two further writes: both stay inside the transaction
+				c := tx.Model(&TxRow{}).Where("id = ?", a.ID)
+				for k := 1; k <= 2 && pending == nil; k++ {
+					if err := c.Update("v", a.ID+int64(k)).Error; err != nil {
+						pending = err
+					}
+				}
 			}
 		case "read":
 			var n int64
@@ -217,8 +225,10 @@ func classify(err error) string {
 	switch {
 	case err == nil:
 		return "nil"
+	case errors.Is(err, recdrv.ErrInjected) && err.Error() == recdrv.ErrInjected.Error():
+		return "fault" // the driver's error, unchanged
 	case errors.Is(err, recdrv.ErrInjected) || strings.Contains(err.Error(), recdrv.ErrInjected.Error()):
-		return "fault"
+		return "fault_altered"
 	case err == errBlock:
 		return "err"
 	case errors.Is(err, errBlock):
@@ -459,7 +469,7 @@ func randBlocks(r *rand.Rand, nested bool) []Act {
 			case c < 5:
 				nw++
 				f := wantFault && !faulted && r.Intn(4) == 0
-				prog = append(prog, Act{Op: "write", ID: nw, F: f, Via: []string{"", "", "prep", "sess", "ctx"}[r.Intn(5)]})
+				prog = append(prog, Act{Op: "write", ID: nw, F: f, Via: []string{"", "", "prep", "sess", "ctx", "reuse"}[r.Intn(6)]})
 				if f {
 					faulted = true
 					mode = "fail"
